@@ -358,6 +358,122 @@ func c12Valid() []c12Rule {
 	return rs
 }
 
+// ---- collision rules × "what kind of field carries the colliding name" -------------------------------
+// The colliding sibling may be a plain singular field, repeated, a map, a proto3 optional scalar or
+// message (synthetic oneof in the descriptor), a member of another plain oneof or a member of another
+// annotated oneof.
+var c12SiblingKinds = []string{"plain", "repeated", "map", "optional", "optional-message", "other-oneof", "other-annotated-oneof"}
+
+func c12Sibling(kind, name string, num int32, q func(string) string) ([]*Field, []*Oneof) {
+	switch kind {
+	case "plain":
+		return []*Field{F(name, num, "string")}, nil
+	case "repeated":
+		return []*Field{F(name, num, "int32", Rep())}, nil
+	case "map":
+		return []*Field{F(name, num, "string", MapOf("string"))}, nil
+	case "optional":
+		return []*Field{F(name, num, "string", Opt())}, nil
+	case "optional-message":
+		return []*Field{F(name, num, "", Msg(q("ZqChild")), Opt())}, nil
+	case "other-oneof":
+		return []*Field{F(name, num, "string", InOneof("zq_other")), F("zq_other_b", num+1, "int32", InOneof("zq_other"))}, []*Oneof{{Name: "zq_other"}}
+	case "other-annotated-oneof":
+		return []*Field{F(name, num, "string", InOneof("zq_other")), F("zq_other_b", num+1, "int32", InOneof("zq_other"))},
+			[]*Oneof{{Name: "zq_other", HasConfig: true, Discriminator: "zq_d2"}}
+	}
+	panic("sibling kind " + kind)
+}
+
+func c12SiblingRules() []c12Rule {
+	child := func() *Message { return M("ZqChild", F("street", 1, "string"), F("zip_code", 2, "string")) }
+	variants := func() []*Message {
+		return []*Message{M("ZqText", F("body", 1, "string")), M("ZqImage", F("url", 1, "string"), F("pixel_width", 2, "int32"))}
+	}
+	var rs []c12Rule
+	add := func(id string, client bool, b func(q func(string) string) *c12Frag) {
+		rs = append(rs, c12Rule{ID: id, Client: client, Build: b})
+	}
+	for _, k := range c12SiblingKinds {
+		k := k
+		oneofMsg := func(q func(string) string, o *Oneof, sibName string) *Message {
+			sf, so := c12Sibling(k, sibName, 2, q)
+			fs := append([]*Field{F("id", 1, "string")}, sf...)
+			fs = append(fs, F("text", 10, "", Msg(q("ZqText")), InOneof("zq_item")), F("image", 11, "", Msg(q("ZqImage")), InOneof("zq_item"), OneofVal("img")))
+			return M("ZqBad", fs...).WithOneofs(append([]*Oneof{o}, so...)...)
+		}
+		add("discriminator-collision/sibling-"+k, true, func(q func(string) string) *c12Frag {
+			return &c12Frag{Msgs: append([]*Message{oneofMsg(q, &Oneof{Name: "zq_item", HasConfig: true, Discriminator: "kind"}, "kind"), child()}, variants()...), Off: c12Zq("zq_item")}
+		})
+		add("oneof-flatten-child-collision/sibling-"+k, true, func(q func(string) string) *c12Frag {
+			return &c12Frag{Msgs: append([]*Message{oneofMsg(q, &Oneof{Name: "zq_item", HasConfig: true, Discriminator: "kind", Flatten: true}, "pixel_width"), child()}, variants()...), Off: c12Zq("zq_item")}
+		})
+		add("flatten-collision/sibling-"+k, true, func(q func(string) string) *c12Frag {
+			sf, so := c12Sibling(k, "zip_code", 1, q)
+			fs := append(sf, F("zq_item", 5, "", Msg(q("ZqChild")), Flatten(true)))
+			return &c12Frag{Msgs: []*Message{M("ZqBad", fs...).WithOneofs(so...), child()}, Off: c12Zq("zq_item")}
+		})
+		add("unwrap-map-not-alone/sibling-"+k, false, func(q func(string) string) *c12Frag {
+			sf, so := c12Sibling(k, "label", 2, q)
+			fs := append([]*Field{F("zq_item", 1, "", Msg(q("ZqChild")), MapOf("string"), Unwrap())}, sf...)
+			return &c12Frag{Msgs: []*Message{M("ZqBad", fs...).WithOneofs(so...), child()}, Off: c12Zq("zq_item")}
+		})
+		if k != "plain" {
+			// the colliding CHILD of a second flattened field is of that kind
+			add("flatten-collision/flattened-child-"+k, true, func(q func(string) string) *c12Frag {
+				sf, so := c12Sibling(k, "street", 1, q)
+				return &c12Frag{Msgs: []*Message{
+					M("ZqBad", F("id", 1, "string"), F("home", 2, "", Msg(q("ZqChild")), Flatten(true)), F("zq_item", 3, "", Msg(q("ZqKid")), Flatten(true))),
+					child(), M("ZqKid", sf...).WithOneofs(so...)}, Off: c12Zq("zq_item")}
+			})
+		}
+	}
+	// prefix collisions between two flattened fields, and a prefixed child against an optional parent field
+	add("flatten-collision/prefix-vs-prefix", true, func(q func(string) string) *c12Frag {
+		return &c12Frag{Msgs: []*Message{M("ZqBad", F("home", 1, "", Msg(q("ZqChild")), Flatten(true), FlattenPrefix("a_")), F("zq_item", 2, "", Msg(q("ZqChild")), Flatten(true), FlattenPrefix("a_"))), child()}, Off: c12Zq("zq_item")}
+	})
+	add("flatten-collision/prefix-vs-optional", true, func(q func(string) string) *c12Frag {
+		return &c12Frag{Msgs: []*Message{M("ZqBad", F("wstreet", 1, "string", Opt()), F("zq_item", 2, "", Msg(q("ZqChild")), Flatten(true), FlattenPrefix("w"))), child()}, Off: c12Zq("zq_item")}
+	})
+	// a second unwrap field of each shape
+	add("unwrap-twice/second-repeated-message", false, func(q func(string) string) *c12Frag {
+		return &c12Frag{Msgs: []*Message{M("ZqBad", F("first_list", 1, "string", Rep(), Unwrap()), F("zq_item", 2, "", Msg(q("ZqChild")), Rep(), Unwrap())), child()}, Off: c12Zq("zq_item")}
+	})
+	add("unwrap-twice/second-map", false, func(q func(string) string) *c12Frag {
+		return &c12Frag{Msgs: []*Message{M("ZqBad", F("first_list", 1, "string", Rep(), Unwrap()), F("zq_item", 2, "", Msg(q("ZqChild")), MapOf("string"), Unwrap())), child()}, Off: c12Zq("zq_item")}
+	})
+	add("unwrap-twice/first-map", false, func(q func(string) string) *c12Frag {
+		return &c12Frag{Msgs: []*Message{M("ZqBad", F("first_map", 1, "", Msg(q("ZqChild")), MapOf("string"), Unwrap()), F("zq_item", 2, "int64", Rep(), Unwrap())), child()}, Off: c12Zq("zq_item")}
+	})
+	add("unwrap-non-repeated/optional", false, func(q func(string) string) *c12Frag {
+		return &c12Frag{Msgs: []*Message{M("ZqBad", F("zq_item", 1, "string", Opt(), Unwrap()))}, Off: c12Zq("zq_item")}
+	})
+	add("unwrap-non-repeated/oneof-member", false, func(q func(string) string) *c12Frag {
+		return &c12Frag{Msgs: []*Message{M("ZqBad", F("zq_item", 1, "string", InOneof("pick"), Unwrap()), F("other", 2, "int32", InOneof("pick"))).WithOneofs(&Oneof{Name: "pick"})}, Off: c12Zq("zq_item")}
+	})
+	return rs
+}
+
+// c12SiblingValid: the same shapes with names that do not collide.
+func c12SiblingValid() []c12Rule {
+	child := func() *Message { return M("ZqChild", F("street", 1, "string"), F("zip_code", 2, "string")) }
+	var rs []c12Rule
+	for _, k := range c12SiblingKinds {
+		k := k
+		rs = append(rs, c12Rule{ID: "valid:oneof-and-flatten-beside-" + k + "-sibling", Build: func(q func(string) string) *c12Frag {
+			sf, so := c12Sibling(k, "kind_label", 2, q)
+			fs := append([]*Field{F("id", 1, "string")}, sf...)
+			fs = append(fs, F("text", 10, "", Msg(q("ZqText")), InOneof("payload")), F("kind", 11, "", Msg(q("ZqText")), InOneof("payload")))
+			sf2, so2 := c12Sibling(k, "zip", 1, q)
+			return &c12Frag{Msgs: []*Message{
+				M("ZqOk", fs...).WithOneofs(append([]*Oneof{{Name: "payload", HasConfig: true, Discriminator: "kind", Flatten: true}}, so...)...),
+				M("ZqOkFlat", append(sf2, F("home", 5, "", Msg(q("ZqChild")), Flatten(true)))...).WithOneofs(so2...),
+				M("ZqText", F("body", 1, "string")), child()}}
+		}})
+	}
+	return rs
+}
+
 // c12Rich: valid annotated content placed around the offender.
 func c12Rich(pkg, sfx string) ([]*Message, []*Enum, []*Method) {
 	p := func(n string) string { return pkg + "." + n + sfx }
@@ -463,9 +579,12 @@ func C12Catalogue(rng *rand.Rand, tier string) []*C12Case {
 	var out []*C12Case
 	n := 0
 	id := func() string { n++; return fmt.Sprintf("c12x%d", n) }
-	for _, r := range c12Rules() {
-		for _, pl := range c12Placements {
+	for ri, r := range c12Rules() {
+		for pi, pl := range c12Placements {
 			for _, su := range []string{"min", "rich"} {
+				if tier != "thorough" && su == "rich" && (ri+pi)%2 == 1 {
+					continue // quick tier: rich surroundings for every other (rule, placement) pair
+				}
 				c := c12Assemble(id(), pl, su, r)
 				c.Family = "rule-placement"
 				out = append(out, c)
@@ -586,6 +705,24 @@ func C12Catalogue(rng *rand.Rand, tier string) []*C12Case {
 		a.Rule += "+enum-number-with-custom-values(second file)"
 		a.Family = "several-rules"
 		out = append(out, a)
+	}
+	// collision rules × kind of the field that carries the colliding name (4 placements, surroundings alternate)
+	for i, r := range c12SiblingRules() {
+		for j, pl := range c12Placements {
+			su := "min"
+			if (i+j)%4 == 1 {
+				su = "rich"
+			}
+			c := c12Assemble(id(), pl, su, r)
+			c.Family = "collision-sibling-kind"
+			out = append(out, c)
+		}
+	}
+	for i, r := range c12SiblingValid() {
+		pl := c12Placements[i%3]
+		c := c12Assemble(id(), pl, "min", r)
+		c.Family = "near-miss-valid"
+		out = append(out, c)
 	}
 	// seeded random: rule × placement × surround drawn at random with a random second valid near-miss fragment appended
 	nr := 12
